@@ -466,6 +466,8 @@ class TermCanvas(Canvas):
                 self.scrollback_buffer.append(self.term.pop(0))
 
         self.height = height
+        # growing may have popped rows from the scrollback buffer
+        self.scrolling_up = min(self.scrolling_up, len(self.scrollback_buffer))
 
         self.reset_scroll()
 
